@@ -37,6 +37,7 @@ type MSCall struct {
 	OK      bool
 	Err     string
 	Fault   string
+	Delay   time.Duration
 }
 
 func (c MSCall) String() string {
@@ -83,6 +84,8 @@ type Metastore struct {
 	calls  []MSCall
 	n      int
 	Faults map[int]string // call index -> fault kind
+	Delays map[int]time.Duration // call index -> (virtual) latency before the call executes
+	Latency func(op string) time.Duration // optional random latency source
 	// Gate, when set, is called before every call is executed (outside the monitor's mutex);
 	// a scheduler blocks here to decide which pending call goes next.
 	Gate func(c *MSCall)
@@ -95,7 +98,7 @@ type Metastore struct {
 
 // NewMetastore wraps inner.
 func NewMetastore(inner appencryption.Metastore) *Metastore {
-	return &Metastore{Inner: inner, Faults: map[int]string{}, counts: map[string]int{}}
+	return &Metastore{Inner: inner, Faults: map[int]string{}, Delays: map[int]time.Duration{}, counts: map[string]int{}}
 }
 
 func (m *Metastore) begin(op, id string, created int64, in *appencryption.EnvelopeKeyRecord) (*MSCall, string) {
@@ -110,9 +113,18 @@ func (m *Metastore) begin(op, id string, created int64, in *appencryption.Envelo
 	c.Idx = m.n
 	m.n++
 	f := m.Faults[c.Idx]
+	d := m.Delays[c.Idx]
 	m.counts[op]++
 	m.counts[op+":"+id]++
+	lat := m.Latency
 	m.mu.Unlock()
+	if lat != nil && d == 0 {
+		d = lat(op)
+	}
+	if d > 0 {
+		time.Sleep(d)
+		c.Delay = d
+	}
 	c.Fault = f
 	return c, f
 }
